@@ -1,6 +1,7 @@
 from typing import Dict, Iterable, Set, Union
 
 from collections import deque
+import copy
 from datetime import datetime, timezone
 from enum import Enum, auto
 
@@ -148,6 +149,21 @@ class MessageData(object):
 
     def __repr__(self):
         return f'{MessageType.get_type_string(self.message_type)} data ({self.num_messages} messages)'
+
+
+def _detached_copy(entry: MessageData) -> MessageData:
+    """!
+    @brief Copy a cached @ref MessageData object so that the caller can modify the copy (clear or extend its lists,
+           time-align it, convert it to numpy -- all of which work in place) without changing the cached data.
+
+    The message objects and numpy arrays themselves are shared with the cache, not duplicated.
+    """
+    result = copy.copy(entry)
+    for name in ('messages', 'message_bytes', 'message_index'):
+        value = getattr(result, name, None)
+        if isinstance(value, list):
+            setattr(result, name, list(value))
+    return result
 
 
 class TimeAlignmentMode(IntEnum):
@@ -471,6 +487,8 @@ class DataLoader(object):
             # Nothing to read. Return cached data.
             logger.debug('Requested data already cached. [# types=%d, time_range=%s]' %
                          (len(message_types), str(time_range)))
+            if not return_in_order and not ignore_cache:
+                result = {t: _detached_copy(entry) for t, entry in result.items()}
             return result
 
         # Reset the filter criteria for the reader.
@@ -670,7 +688,10 @@ class DataLoader(object):
                                 keep_messages=keep_messages, keep_message_bytes=return_bytes,
                                 keep_message_index=return_message_index)
 
-        # Done.
+        # Done. The entries in result are the cached objects: hand out copies, so that nothing the caller does with the
+        # returned data changes what a later read() returns.
+        if not return_in_order and not ignore_cache:
+            result = {t: _detached_copy(entry) for t, entry in result.items()}
         return result
 
     def read_next(self, return_bytes: bool = False, return_message_index: bool = False):
